@@ -21,6 +21,7 @@ import DisjointImpls.Lemmas.FlatOrder
 import DisjointImpls.Props.C11
 import DisjointImpls.Lemmas.EndToEnd
 import DisjointImpls.CanonAlphaDefs
+import DisjointImpls.Lemmas.CanonIsRenamingDefs
 import DisjointImpls.Lemmas.EndToEndNested
 import DisjointImpls.Lemmas.Acyclic
 import DisjointImpls.Lemmas.FlatAccept
@@ -220,7 +221,13 @@ def handle (cmd : String) (args : List Sx) : Sx :=
       .list [.sym "canon", (canon item).toSx, pr s.ixLt, pr s.ixTy, pr s.ixCo, boolSx (canon (canon item) == canon item)]
   | "canonwf", [item] =>
       -- the hypothesis of `C13_canon_idem` (CanonWF.lean) and the conclusion, both evaluated on the item
-      .list [.sym "canonwf", boolSx (canonWF item), boolSx (canon (canon item) == canon item)]
+      -- … and the conclusions of C13_canon_is_renaming / C13_canon_all_rewritten_wf / C13_canonWF_alphaOK (hypothesis canonWF) and
+      -- of C13_canon_is_renaming_reserved (hypothesis renamingShapeOK_cr)
+      let r := (indexImpl item).renaming
+      .list [.sym "canonwf", boolSx (canonWF item), boolSx (canon (canon item) == canon item),
+             boolSx (canon item == qselfFormOf_cr r.tyNames_cr (alphaRenameC_cr r item)),
+             boolSx (noOld_cr r (canon item)), boolSx (alphaOK r item),
+             boolSx (renamingShapeOK_cr item), boolSx (canon item == qselfForm_cr (alphaRenameC_cr r item))]
   | "alpha", [base, variant, pi] =>
       -- hypotheses and conclusion of C06_renamed_permuted_same_header for a block and a renamed / re-declared presentation of it:
       -- pi = Pi[lt[a b …], ty[a b …], co[a b …]] (old name, new name, …)
